@@ -40,7 +40,8 @@ func StartShard(nh *dragonboat.NodeHost, id uint64, firstIndex uint64, sm interf
 	case dbsm.IConcurrentStateMachine:
 		err = nh.StartConcurrentReplica(members, false, func(uint64, uint64) dbsm.IConcurrentStateMachine { return m }, cfg)
 	case dbsm.IOnDiskStateMachine:
-		err = nh.StartOnDiskReplica(members, false, func(uint64, uint64) dbsm.IOnDiskStateMachine { return m }, cfg)
+		// the harness hands over an already opened state machine
+		err = nh.StartOnDiskReplica(members, false, func(uint64, uint64) dbsm.IOnDiskStateMachine { return openedSM{m} }, cfg)
 	default:
 		panic(fmt.Sprintf("StartShard: unsupported state machine %T", sm))
 	}
@@ -64,3 +65,9 @@ func StartShard(nh *dragonboat.NodeHost, id uint64, firstIndex uint64, sm interf
 }
 
 func YieldAtStore(nh *dragonboat.NodeHost, on bool) {}
+
+// openedSM adapts a state machine the harness has already opened: dragonboat's
+// Open call must not open it a second time.
+type openedSM struct{ dbsm.IOnDiskStateMachine }
+
+func (o openedSM) Open(<-chan struct{}) (uint64, error) { return 0, nil }
